@@ -17,13 +17,15 @@ import time
 from .common import add_failure, bump, log, new_outcome
 
 PROP = "C14"
-PROPS_FILES = ["CogentModel/Props/C14.lean", "CogentModel/Props/C14Call.lean"]
-LEAN_TARGETS = ["CogentModel.Props.C14", "CogentModel.Props.C14Call"]
+PROPS_FILES = ["CogentModel/Props/C14.lean", "CogentModel/Props/C14Call.lean", "CogentModel/Props/C14Select.lean"]
+LEAN_TARGETS = ["CogentModel.Props.C14", "CogentModel.Props.C14Call", "CogentModel.Props.C14Select"]
 DRIVER = "drv_c14"
 TRUSTED = [
     "hand-written model lean/CogentModel/Model/Composable.lean of composable._call/_validate_data_type/_apply_to/_source_wrapped "
     "and of the writer's completed / not-completed routing (one dict-like store); tied by running the real define_app machinery on generated "
     "pipelines (serial and parallel) and comparing output stores and direct calls",
+    "translator/c14_select2lean.py + vocabulary Model/SelectPrims.lean (selection loop of _apply_to and _proxy_input -> Gen/C14Select.lean); validated every "
+    "run by the select_gen stream (harness/c14_select.py)",
     "a schedule is modelled as an arbitrary permutation of the submitted results (List.Perm); loky / pickling / MPI are exercised, not modelled",
 ]
 ASSUMPTIONS = [
@@ -56,7 +58,19 @@ def generate(ctx):
     ctx.notes.append(f"c14_call2lean: _builtin_seqs={info.get('_builtin_seqs')} raises of _add={info.get('_add_raises')}")
     if lean is not None and T.write_if_changed(LEAN / "CogentModel" / "Gen" / "C14Call.lean", lean):
         ctx.notes.append("Gen/C14Call.lean was rewritten (the source of _call/_validate_data_type/_add/get_default_chunksize differs from the last translation)")
-    return [f"c14_call2lean: {p}" for p in problems]
+    problems = [f"c14_call2lean: {p}" for p in problems]
+    # wave 3: the selection part of _apply_to and _proxy_input -> Gen/C14Select.lean
+    from translator import c14_select2lean as S
+
+    try:
+        lean2, info2, problems2 = S.translate(SRC)
+    except T.TranslationError as e:
+        return problems + [f"c14_select2lean: {e}"]
+    ctx.notes.append(f"c14_select2lean: raises={info2.get('raises')} logging left out={info2.get('logging_left_out')} "
+                     f"outside the translated slice={info2.get('preamble_outside')}")
+    if lean2 is not None and S.write_if_changed(LEAN / "CogentModel" / "Gen" / "C14Select.lean", lean2):
+        ctx.notes.append("Gen/C14Select.lean was rewritten (the source of _apply_to's selection / _proxy_input differs from the last translation)")
+    return problems + [f"c14_select2lean: {p}" for p in problems2]
 
 
 # --------------------------------------------------------------------------
@@ -453,6 +467,9 @@ def correspondence(ctx):
     c14_rich.corr_rich(ctx, out)
     c14_rich.corr_add(ctx, out)
     c14_rich.corr_chunksize_gen(ctx, out)
+    from . import c14_select
+
+    c14_select.corr_select_gen(ctx, out)
     return out
 
 
